@@ -89,6 +89,8 @@ func scenario(cf scfg, kinds map[int]string, rng *rand.Rand) (l *lab.Lab, viol [
 			return p.Msg("1", seq, hdr, fixwire.Fields{lab.F(112, fmt.Sprintf("T%d", seq))})
 		case "A":
 			return p.Logon(seq, 30)
+		case "G": // the peer's own gap fill over numbers it will not send (seq and the following "g" numbers)
+			return p.Msg("4", seq, hdr, fixwire.Fields{lab.F(123, "Y"), lab.F(36, fmt.Sprint(seq+span(kinds, seq)))})
 		}
 		return p.Msg("0", seq, hdr, nil)
 	}
@@ -147,7 +149,7 @@ func scenario(cf scfg, kinds map[int]string, rng *rand.Rand) (l *lab.Lab, viol [
 			rrSteps++
 		}
 		tooHigh := live && seq > before.NextTarget
-		checkedKind := kind == "D" || kind == "0" || kind == "1" || kind == "A"
+		checkedKind := kind == "D" || kind == "0" || kind == "1" || kind == "A" || kind == "G"
 		if tooHigh && !wasRecovering && checkedKind {
 			// the gap is detected here
 			if len(rrs) != 1 {
@@ -251,9 +253,10 @@ func scenario(cf scfg, kinds map[int]string, rng *rand.Rand) (l *lab.Lab, viol [
 		}
 		if next <= last {
 			pat.WriteString("L" + kinds[next])
-			peerSent = next
+			k := span(kinds, next)
+			peerSent = next + k - 1
 			step(fmt.Sprintf("live %s %d", kinds[next], next), build(next, false), next, true, kinds[next])
-			next++
+			next += k
 		}
 	}
 	// completion: everything the peer sent has been supplied or was received live
@@ -276,6 +279,17 @@ func scenario(cf scfg, kinds map[int]string, rng *rand.Rand) (l *lab.Lab, viol [
 		}
 	}
 	return l, viol, nontrivial && rrSteps > 0, fmt.Sprintf("gap%d chunk%d %s", cf.L2-cf.L1+1, cf.Chunk, pat.String())
+}
+
+// span: how many numbers the message at seq covers (a "G" gap fill covers itself and the following "g" numbers).
+func span(kinds map[int]string, seq int) int {
+	k := 1
+	if kinds[seq] == "G" {
+		for kinds[seq+k] == "g" {
+			k++
+		}
+	}
+	return k
 }
 
 func genKinds(r *rand.Rand, n int) map[int]string {
@@ -301,7 +315,20 @@ func runCase(c *core.Ctx, r *core.Result, stream string, i int, rng *rand.Rand, 
 	if cf.GapOnLogon {
 		cf.L1 = 1
 	}
-	finish(c, r, stream, i, cf, genKinds(rng, n), rng, verbose)
+	kinds := genKinds(rng, n)
+	if lo := cf.L2 + 2; rng.Intn(3) == 0 && lo+3 <= n {
+		// the peer gap-fills a few of its own numbers while the recovery is in progress: the gap fill arrives
+		// early like any other message, is kept, and moves the expected number by more than one when its turn comes
+		at := lo + rng.Intn(n-lo-2)
+		k := 2 + rng.Intn(2)
+		if at+k <= n {
+			kinds[at] = "G"
+			for j := 1; j < k; j++ {
+				kinds[at+j] = "g"
+			}
+		}
+	}
+	finish(c, r, stream, i, cf, kinds, rng, verbose)
 }
 
 func finish(c *core.Ctx, r *core.Result, stream string, i int, cf scfg, kinds map[int]string, rng *rand.Rand, verbose bool) {
